@@ -250,6 +250,35 @@ def _flat(x):
     return out
 
 
+_NPP = None
+
+
+def _np_proxy():
+    """numpy as seen by a kernel's py_func, except that linalg.norm is the numba implementation (BLAS nrm2),
+    so that the source run performs the same floating operations as the compiled kernel."""
+    global _NPP
+    if _NPP is None:
+        nb = lib().numba
+
+        @nb.njit(cache=False)
+        def norm(x):
+            return np.linalg.norm(x)
+
+        class _LA:
+            def __getattr__(self, name):
+                return getattr(np.linalg, name)
+        la = _LA()
+        la.norm = lambda x: norm(np.ascontiguousarray(x, dtype=np.float64))
+
+        class _NP:
+            linalg = la
+
+            def __getattr__(self, name):
+                return getattr(np, name)
+        _NPP = _NP()
+    return _NPP
+
+
 def _bind(fn, a, kw):
     """Ordered (name, value) pairs of a call of an njit function, by its Python signature."""
     import inspect
@@ -365,6 +394,7 @@ class Tracer:
                     patch(rk, nm, self._other(getattr(rk, nm), canon, names))
                 for nm in REFINES:
                     patch(rk, nm, self._refine(getattr(rk, nm)))
+                patch(rk, "np", _np_proxy())
                 patch(rk, "_pi_accept_factor", self._scalar(rk._pi_accept_factor, "acc"))
                 patch(rk, "_pi_reject_factor", self._scalar(rk._pi_reject_factor, "rej"))
                 orig_c = rk._event_crossed
@@ -460,6 +490,9 @@ def twin_configs(v, rnd, quick):
     return cfgs
 
 
+_WARM: set = set()
+
+
 def run_path(v, cfg, path, systems, traced):
     """One path of one variant.  Returns dict(kernel, res, events) or dict(error=...)."""
     L = lib()
@@ -470,6 +503,12 @@ def run_path(v, cfg, path, systems, traced):
         ev = event_fn()
     tr = Tracer(traced, cfg)
     try:
+        wk = (v["family"], v["order"] if v["family"] == "adaptive" else 0, v["event"], v["dir"], path, id(base))
+        if traced and wk not in _WARM:
+            # every compiled helper must exist BEFORE rk's globals are replaced by recorders (numba resolves
+            # globals at compile time): run the compiled path once first
+            Tracer(False, cfg).run(v, system, cfg["y0"], cfg["grid"], ev, cfg["evdir"])
+        _WARM.add(wk)
         k, res, events = tr.run(v, system, cfg["y0"], cfg["grid"], ev, cfg["evdir"])
         return {"kernel": k, "res": res, "events": events}
     except MachineryError:
